@@ -16,14 +16,14 @@ EXPLANATION = ("Inertia_, UnitInertia_, SpatialInertia_, ArticulatedInertia_, Ma
                "shiftAccelerationBy is the time derivative of shiftVelocityBy (AD, r fixed in the body); PhiMatrix products equal their 6x6 matrices; ArticulatedInertia::shift(s) = "
                "[1 sx;0 1] P [1 0;-sx 1], agrees with SpatialInertia::shift(-s) on rigid bodies, keeps V.(P V) invariant. isValidInertiaMatrix: on every accepted path the diagonal is >= -Slop "
                "and satisfies the triangle inequalities within the code's Slop; positive semi-definiteness of accepted matrices is asserted as the property states.")
-BOUNDS = "free set ALL (every input a solver variable, three rotation angles included); validity test: six matrix entries free, paths of isValidInertiaMatrix explored up to 24 (quick) / 60"
+BOUNDS = "free set ALL (every input a solver variable, three rotation angles included); validity test: six matrix entries free, up to 24 paths of isValidInertiaMatrix explored (both tiers)"
 NOT_COVERED = ("float; the constructors' errChk (compiled out in the Release/NDEBUG build that is verified; isValidInertiaMatrix is the same family of tests); shape factories (sphere, brick, ...); "
                "rounding")
 
 
 def instances(tier, seed):
     return [dict(name="inertia", args=["inertia"], base_points=1), dict(name="spatial", args=["spatial"], base_points=1, max_terms=60000),
-            dict(name="abi", args=["abi"], base_points=1), dict(name="valid", args=["valid"], base_points=1, paths=24 if tier == "quick" else 60, flips_per_path=14)]
+            dict(name="abi", args=["abi"], base_points=1), dict(name="valid", args=["valid"], base_points=1, paths=24, flips_per_path=14, z3_timeout_ms=60000)]
 
 
 def free_sets(inst, tr, tier, rng):
